@@ -221,6 +221,11 @@ def open_stream_facts(mod):
 
 
 def _endswith_test(test, fn):
+    if isinstance(test, ast.BoolOp) and isinstance(test.op, ast.Or):      # path.endswith(a) or path.endswith(b)
+        parts = [_endswith_test(v, fn) for v in test.values]
+        if all(p is not None for p in parts):
+            return [x for p in parts for x in p]
+        return None
     if isinstance(test, ast.Call) and isinstance(test.func, ast.Attribute) and test.func.attr == "endswith" \
             and _is_name(test.func.value, "path") and len(test.args) == 1 and not test.keywords:
         a = test.args[0]
